@@ -33,6 +33,11 @@ type Scenario struct {
 	// first asked for; the bounds asked for afterwards must be those of the
 	// geometry as it is then.
 	Later []Later `json:"later,omitempty"`
+	// Wide are non-collection geometries in layouts of more than four
+	// dimensions; only their own Bounds() and a same-layout Extend are checked
+	// (dimension i of the box is ordinate i), they are not delivered to the
+	// replicas: what mixing such a layout with XYZ/XYM/XYZM means is not stated.
+	Wide []*mgeom.Geom `json:"wide,omitempty"`
 }
 
 // Later is one step of a message's later life.
@@ -65,7 +70,7 @@ func (prop) Plan(tier string) []core.Phase {
 func (prop) Describe() core.Description {
 	return core.Description{
 		Level: "exploration",
-		Rule: "A scenario is an initial layout (NoLayout/XY/XYZ/XYM/XYZM), a bag of 1-12 generated geometries (7 types, collections nested up to 3 deep with mixed member layouts, empties, finite ordinates) and, for each of 2-4 replicas, a delivery sequence that contains every message at least once in a seeded order with seeded duplicates. Afterwards 0-3 seeded steps of the messages' later life (the caller extends a box that Bounds() returned, a member is pushed into a possibly nested collection, an ordinate is overwritten through FlatCoords()) are each followed by asking for the bounds again. A run is non-trivial when at least two replicas received the first copies of the messages in different orders and the bag holds coordinates in at least two different layouts, or when a duplicate delivery happened after other data arrived.",
+		Rule: "A scenario is an initial layout (NoLayout/XY/XYZ/XYM/XYZM), a bag of 1-12 generated geometries (7 types, collections nested up to 3 deep with mixed member layouts, empties, finite ordinates) and, for each of 2-4 replicas, a delivery sequence that contains every message at least once in a seeded order with seeded duplicates. Afterwards 0-3 seeded steps of the messages' later life (the caller extends a box that Bounds() returned, a member is pushed into a possibly nested collection, an ordinate is overwritten through FlatCoords()) are each followed by asking for the bounds again; in 15% of the runs 1-2 extra geometries with five or six ordinates per coordinate have their own bounds checked dimension by dimension. A run is non-trivial when at least two replicas received the first copies of the messages in different orders and the bag holds coordinates in at least two different layouts, or when a duplicate delivery happened after other data arrived.",
 		StateMeasure: "distinct (initial layout, multiset of message layouts, per-replica first-delivery order) tuples",
 		Assumptions: []string{
 			"no NaN ordinates and only XY/XYZ/XYM/XYZM (and NoLayout for the initial box), as the property states",
@@ -75,7 +80,7 @@ func (prop) Describe() core.Description {
 		RealComponents: []string{"go-geom root package: Bounds (NewBounds, Extend, Min, Max, Layout, IsEmpty, Overlaps, OverlapsPoint, Polygon, Clone), T.Bounds() of all seven types", "encoding/geojson (Marshal with EncodeGeometryWithBBox)"},
 		StubComponents: []string{"the network between message source and replicas (seeded delivery order and duplication)"},
 		FaultKinds:     []string{"reordered-delivery", "duplicate-delivery"},
-		Probes:         []string{"probe:xym-then-xyz", "probe:xyz-then-xym", "probe:xym-into-xyzm", "probe:xyz-into-xyzm", "probe:nested-collection-message", "probe:collection-message", "probe:empty-message-promotes-layout", "probe:mixed-layout-collection-bounds", "probe:push-into-nested-collection-after-bounds", "probe:overlap-true", "probe:overlap-false", "probe:point-overlap-true", "probe:point-overlap-false", "probe:geojson-bbox-checked"},
+		Probes:         []string{"probe:xym-then-xyz", "probe:xyz-then-xym", "probe:xym-into-xyzm", "probe:xyz-into-xyzm", "probe:nested-collection-message", "probe:collection-message", "probe:empty-message-promotes-layout", "probe:mixed-layout-collection-bounds", "probe:push-into-nested-collection-after-bounds", "probe:layout>4-bounds", "probe:returned-polygon-scribbled", "probe:overlap-true", "probe:overlap-false", "probe:point-overlap-true", "probe:point-overlap-false", "probe:geojson-bbox-checked"},
 	}
 }
 
@@ -114,8 +119,24 @@ func (prop) Decode(raw []byte) (any, error) {
 			}
 		}
 	}
-	if len(s.Later) > 8 {
-		return nil, fmt.Errorf("too many later steps")
+	if len(s.Later) > 8 || len(s.Wide) > 4 {
+		return nil, fmt.Errorf("too many later steps / wide geometries")
+	}
+	for _, m := range s.Wide {
+		if m == nil || m.T == mgeom.GC || mgeom.Level(m.T) < 0 || m.L < 5 || m.L > 7 {
+			return nil, fmt.Errorf("bad wide geometry")
+		}
+		bad := false
+		m.EachCoord(func(_ int, c mgeom.Coord) {
+			for _, o := range c {
+				if math.IsNaN(float64(o)) {
+					bad = true
+				}
+			}
+		})
+		if bad {
+			return nil, fmt.Errorf("NaN ordinate")
+		}
 	}
 	for _, l := range s.Later {
 		if l.K != "extend-returned" && l.K != "push" && l.K != "write" {
@@ -217,6 +238,12 @@ func (prop) Generate(r *prng.Rand, phase string) any {
 			p[j] = mgeom.F(r.SmallFloat())
 		}
 		s.Points = append(s.Points, p)
+	}
+	if r.Chance(0.15) {
+		for i := r.Range(1, 2); i > 0; i-- {
+			flat := []string{mgeom.Pt, mgeom.LS, mgeom.LR, mgeom.Pg, mgeom.MPt, mgeom.MLS, mgeom.MPg}
+			s.Wide = append(s.Wide, cfg.Gen(r, flat[r.Intn(len(flat))], 5+r.Intn(2), 0))
+		}
 	}
 	for i := r.Pick(3, 2, 2, 1); i > 0; i-- {
 		l := Later{K: []string{"extend-returned", "push", "write"}[r.Intn(3)], Msg: r.Intn(n), Add: r.Intn(n), Ord: r.Intn(64), V: mgeom.F(r.SmallFloat())}
@@ -701,6 +728,9 @@ func (prop) Execute(scAny any, phase string, log *core.Log) core.Result {
 	if !laterLife(&res, log, s, geoms) {
 		return res
 	}
+	if !wideBounds(&res, log, s) {
+		return res
+	}
 	reordered := res.Counters["reordered-delivery"] > 0
 	res.Nontrivial = (reordered && len(layoutsWithData) >= 2) || dupAfterData
 	var ls []string
@@ -710,6 +740,68 @@ func (prop) Execute(scAny any, phase string, log *core.Log) core.Result {
 	sort.Strings(ls)
 	res.StateKey = fmt.Sprintf("%d|%s|%s", s.L0, strings.Join(ls, ""), strings.Join(firstOrders, ";"))
 	return res
+}
+
+// wideBounds checks Bounds() and a same-layout Extend of geometries with more
+// than four ordinates per coordinate: dimension i of the box is the tight
+// range of ordinate i.
+func wideBounds(res *core.Result, log *core.Log, s *Scenario) bool {
+	for wi, m0 := range s.Wide {
+		m := m0.Clone().Norm()
+		g, err := mgeom.Build(m)
+		if err != nil {
+			res.Fail("build", "build:"+m.T, "building wide geometry %d failed: %v; model %s", wi, err, m)
+			return false
+		}
+		st := mgeom.Stride(m.L)
+		lo, hi := make([]float64, st), make([]float64, st)
+		for i := range lo {
+			lo[i], hi[i] = math.Inf(1), math.Inf(-1)
+		}
+		n := 0
+		m.EachCoord(func(_ int, c mgeom.Coord) {
+			n++
+			for i, o := range c {
+				lo[i], hi[i] = math.Min(lo[i], float64(o)), math.Max(hi[i], float64(o))
+			}
+		})
+		res.Count("probe:layout>4-bounds", 1)
+		for _, how := range []string{"Bounds()", "NewBounds(same layout).Extend"} {
+			var b *geom.Bounds
+			if p := core.Guard(func() {
+				if how == "Bounds()" {
+					b = g.Bounds()
+				} else {
+					b = geom.NewBounds(geom.Layout(m.L)).Extend(g)
+				}
+			}); p != "" {
+				res.Fail("panic", "panic:wide-bounds:"+core.PanicSite(p), "%s of a %s with %d ordinates per coordinate panicked: %s", how, m.T, st, p)
+				return false
+			}
+			res.Steps++
+			if int(b.Layout()) != m.L {
+				res.Fail("bounds-layout", "bounds-layout:wide:"+m.T, "%s of a %s with layout %d has layout %s", how, m.T, m.L, b.Layout())
+				return false
+			}
+			for i := 0; i < st; i++ {
+				var bl, bh float64
+				if p := core.Guard(func() { bl, bh = b.Min(i), b.Max(i) }); p != "" {
+					res.Fail("bounds-not-tight", "bounds-not-tight:wide:"+m.T, "%s of a %s with %d ordinates per coordinate has no dimension %d", how, m.T, st, i)
+					return false
+				}
+				if bl != lo[i] || bh != hi[i] {
+					res.Fail("bounds-not-tight", "bounds-not-tight:wide:"+m.T, "%s of %s: dimension %d is [%g, %g], ordinate %d spans [%g, %g]", how, m, i, bl, bh, i, lo[i], hi[i])
+					return false
+				}
+			}
+			if (n == 0) != b.IsEmpty() {
+				res.Fail("empty-not-empty", "emptiness:wide:"+m.T, "%s of %s (%d coordinates) reports IsEmpty() = %v", how, m, n, b.IsEmpty())
+				return false
+			}
+		}
+		log.Addf("wide %d %s layout %d ok", wi, m.T, m.L)
+	}
+	return true
 }
 
 // laterLife applies the Later steps to the (normalised) message models and to
